@@ -21,7 +21,10 @@ pub struct Case {
 
 pub const VALUES: &[&str] = &["abcabc", " a b ", "a*b", "héllo", "x\ny", "", "A/b/c.txt", "aaa", "aXbXc", "[x]y", "a b  c", "€uro", "-n", "path/to/file.tar.gz", "MiXeD cAsE", "ab\n", "\\a\\b"];
 const PARAMS: &[&str] = &["v", "v", "v", "1", "2", "@", "*", "a[@]", "a[*]", "a[0]", "a[2]", "a[1]", "m[k]", "m[@]", "u", "e", "d", "sa[@]", "sa[4]", "a[-1]"];
-const PATS: &[&str] = &["a", "b", "*", "?", "a*", "*a", "*b*", "[ab]", "[!a]", "??", "*/", "/*", ".*", "*.*", "X", "a*c", "\\*", "é", "[[:upper:]]", "[[:space:]]", " ", "@(a|b)", "+(a)", "*(ab|c)", "?(x)", "''", "\"a*\"", "$pat", "\"$pat\""];
+const PATS: &[&str] = &["a", "b", "*", "?", "a*", "*a", "*b*", "[ab]", "[!a]", "??", "*/", "/*", ".*", "*.*", "X", "a*c", "\\*", "é", "[[:upper:]]", "[[:space:]]", " ", "@(a|b)", "+(a)", "*(ab|c)", "?(x)", "''", "\"a*\"", "$pat", "\"$pat\"",
+    // alternatives where one is a proper prefix / suffix of another: longest and shortest match differ from first-alternative match
+    "@(a|ab)", "+(a|ab|c)", "*(a|aa)", "@(c|bc|abc)", "+(c|Xc|b)", "?(a|aX)b*",
+];
 const WORDS: &[&str] = &["w", "", "w x", "\"w  x\"", "'q'", "$v", "\"$v\"", "${e:-n}", "*", "~", "$(printf s)", "a{b,c}"];
 const OFFS: &[&str] = &["0", "1", "2", "-1", " -1", "(-2)", "3", "5", "6", "7", "100", " -100", "1+1", "i", "i-1", "${#v}", "${#v}-1", "0x2", "1<<1"];
 const LENS: &[&str] = &["0", "1", "2", "3", "100", "-1", "-2", " -1", "i", "1+1"];
@@ -47,7 +50,7 @@ fn expr() -> BoxedStrategy<String> {
         8 => (p.clone(), sel(&["#", "##", "%", "%%"]), sel(PATS)).prop_map(|(p, op, pat)| format!("{p}{op}{pat}")),
         // patterns that can match the empty string are kept out of ${p/pat/rep}: bash's own behaviour
         // for empty matches is irregular (it depends on anchoring, on the value being empty, …)
-        6 => (p.clone(), sel(&["/", "//", "/#", "/%"]), sel(PATS).prop_map(|p| if ["''", "?(x)", "*(ab|c)", "*"].contains(&p.as_str()) { "a".to_string() } else { p.replace('/', "\\/") }), proptest::option::of(sel(REPL))).prop_map(|(p, op, pat, r)| match r {
+        6 => (p.clone(), sel(&["/", "//", "/#", "/%"]), sel(PATS).prop_map(|p| if ["''", "?(x)", "*(ab|c)", "*", "*(a|aa)", "@(a|ab)", "+(a|ab|c)", "@(c|bc|abc)", "+(c|Xc|b)", "?(a|aX)b*"].contains(&p.as_str()) { "a".to_string() } else { p.replace('/', "\\/") }), proptest::option::of(sel(REPL))).prop_map(|(p, op, pat, r)| match r {
             Some(r) => format!("{p}{op}{pat}/{r}"),
             None => format!("{p}{op}{pat}"),
         }),
@@ -94,6 +97,10 @@ pub fn classes_of(c: &Case) -> Vec<String> {
     for e in &c.exprs {
         if e.contains("!(") {
             v.push("extglob_negation".to_string());
+        }
+        // ${p/pat/rep} with an extglob group whose alternative is a proper prefix/suffix of another one
+        if e.contains('/') && ["@(a|ab)", "+(a|ab|c)", "@(c|bc|abc)", "+(c|Xc|b)", "?(a|aX)b*"].iter().any(|g| e.contains(&format!("/{g}")) || e.contains(&format!("/#{g}")) || e.contains(&format!("/%{g}")) || e.contains(&format!("//{g}"))) {
+            v.push("replace_extglob_first_alternative".to_string());
         }
         if e.contains("<<") {
             v.push("shift_in_parameter_expansion".to_string());
